@@ -33,6 +33,7 @@ DEFAULT_OPTS = dict(
     max_objects=3,
     adversarial_names=False,
     metric=None,  # None | "any"
+    traj=False,  # PDDL3 trajectory constraints (sometime, at-most-once, sometime-before/after)
 )
 
 
@@ -108,6 +109,14 @@ class Gen:
             inv = self.bool_expr(1, {}, {}, noconst=True)
             P["invariants"].append(inv)
         P["traj"] = []
+        if o["traj"]:
+            for _ in range(r.choice([1, 1, 2])):
+                k = r.choice(["sometime", "amo", "sbefore", "safter"])
+                a = self.bool_expr(1, {}, {}, noconst=True)
+                if k in ("sometime", "amo"):
+                    P["traj"].append(E(k, [a]))
+                else:
+                    P["traj"].append(E(k, [a, self.bool_expr(1, {}, {}, noconst=True)]))
         P["timed_goals"] = []
         P["timed_effects"] = []
         P["metric"] = {"kind": "none", "costs": [], "default": E("none"), "expr": E("none"), "goals": []}
